@@ -7,6 +7,9 @@
 (* that is switched off contributes nothing to the trajectory and LTO parts. *)
 (***************************************************************************)
 EXTENDS Naturals, FiniteSets, TLC
+\* The performance model's optional data take part as well: it names an APU of the database, names none, or names one the
+\* database does not know (ModelData); no option combination may fail internally on any of them
+ModelData == {"apu_known", "apu_not_named", "apu_unknown"}
 
 Modes == {"trajectory", "lto"}
 NoxMethods == {"bffm2", "p3t3", "none"}
